@@ -338,9 +338,10 @@ class Schema:
                     path_i_str = tuple(str(i) for i in path_i)
                     if path_i_str not in items:
                         items[path_i_str] = {"path": path_simple_i}
-                    items[path_i_str]["required"] = (
-                        key_cnd.callable.name == "required_keys"
-                    )
+                    # required if named by any of the always-applicable `required_keys`:
+                    items[path_i_str]["required"] = items[path_i_str].get(
+                        "required", False
+                    ) or (key_cnd.callable.name == "required_keys")
 
             type_cnds = rule.condition.get_always_applicable_type_like_conditions()
             if type_cnds["key_data_type"]:
